@@ -481,9 +481,14 @@ def write_replay(prop, seed, case_input, events, diag, extra=None):
     return path
 
 
+VIOLATIONS_REPORTED = 0     # VIOLATION lines printed by this process (a later Infra must not turn a verdict into "could not decide")
+
+
 def report(ctx, bad, cases_by_id, trace_path, max_replays=8):
     """Print KNOWN-FINDING / VIOLATION lines. Returns (n_violations, known_ids)."""
+    global VIOLATIONS_REPORTED
     known, viol = classify(ctx.prop, bad)
+    VIOLATIONS_REPORTED += len(viol)
     seen = {}
     for f, b in known:
         seen.setdefault(f["id"], [f, 0])
